@@ -40,6 +40,7 @@ func init() {
 
 		// 2. a failed probe ends in a suspect claim about the probed record, signed by the local node
 		checkProbeNode(c, "C03")
+		checkLockOrder(c, "C03") // a handler that deadlocks on the node lock never removes anybody
 		checkStreamPingAnswer(c, "C03") // a fallback ping meant for another name is not acknowledged
 		checkDeadlines(c) // a stream wait without a read deadline stalls the whole probe loop
 		checkPacketDelivery(c, "C03") // suspicions and failures learned by gossip reach the handlers
